@@ -172,4 +172,94 @@ Section WalkFacts.
     intros Hn. apply iter_ps_spec; [exact Hn|]. pose proof (filter_length_le (fand D F) (a_psibs t n)).
     pose proof (a_psibs_length t Hnd n). lia.
   Qed.
+
+  Lemma descendants_length n : In n (ids t) -> length (a_descendants t n) < length (ids t).
+  Proof.
+    intros Hn. destruct (a_sub_of_id t Hnd n Hn) as [s [Hs [E Hsub]]]. unfold a_descendants. rewrite Hsub.
+    assert (Hl : length (ids s) <= length (ids t)).
+    { apply NoDup_incl_length; [|apply ids_sub_incl; exact Hs]. apply (sub_ids_nodup t Hnd s Hs). }
+    destruct s as [i p kids]. rewrite ids_unfold in Hl. cbn [ikids length] in *. lia.
+  Qed.
+
+  (* ---------------------------------------------------------------- descendants: the explicit-stack loop *)
+  Definition sibs_from (c : option nid) : list nid := match c with None => [] | Some x => x :: a_fsibs t x end.
+  Definition sub_ids (k : nid) : list nid := k :: a_descendants t k.
+  Definition out (c : option nid) : list nid := flat_map sub_ids (sibs_from c).
+  Fixpoint mst (st : list (option nid)) : nat :=
+    match st with [] => 0 | s :: r => S (2 * length (out s)) + mst r end.
+  Definition cand_ok (c : option nid) : Prop := match c with None => True | Some x => In x (ids t) end.
+
+  Lemma sibs_from_next x : In x (ids t) -> sibs_from (Some x) = x :: sibs_from (a_next_sibling t x).
+  Proof.
+    intros Hx. cbn [sibs_from]. f_equal. unfold a_next_sibling. destruct (a_fsibs t x) as [|m r] eqn:E; [reflexivity|].
+    cbn [hd_error sibs_from]. rewrite (fsibs_step t Hnd x m r E). reflexivity.
+  Qed.
+  Lemma children_from x : In x (ids t) -> a_children t x = sibs_from (a_first_child t x).
+  Proof.
+    intros Hx. unfold a_first_child. destruct (a_children t x) as [|c r] eqn:E; [reflexivity|].
+    cbn [hd_error sibs_from]. rewrite (children_step t Hnd x c r Hx E). reflexivity.
+  Qed.
+  Lemma descendants_out x : In x (ids t) -> a_descendants t x = out (a_first_child t x).
+  Proof. intros Hx. rewrite (descendants_preorder t Hnd x Hx). unfold out. rewrite (children_from x Hx). reflexivity. Qed.
+  Lemma next_ok x : In x (ids t) -> cand_ok (a_next_sibling t x).
+  Proof.
+    intros Hx. unfold a_next_sibling. destruct (a_fsibs t x) as [|m r] eqn:E; [exact I|]. cbn.
+    apply (fsibs_in t Hnd x). rewrite E. left. reflexivity.
+  Qed.
+  Lemma first_ok x : cand_ok (a_first_child t x).
+  Proof.
+    unfold a_first_child. destruct (a_children t x) as [|m r] eqn:E; [exact I|]. cbn.
+    apply (children_in t x). rewrite E. left. reflexivity.
+  Qed.
+  Lemma out_some x : In x (ids t) -> out (Some x) = x :: a_descendants t x ++ out (a_next_sibling t x).
+  Proof. intros Hx. unfold out. rewrite (sibs_from_next x Hx). reflexivity. Qed.
+
+  Lemma desc_loop_spec P : forall fuel cand stack, cand_ok cand -> Forall cand_ok stack ->
+    2 * length (out cand) + mst stack < fuel ->
+    desc_loop first_raw next_raw is_tag fc fuel P cand stack = Ok (filter P (out cand ++ flat_map out stack)).
+  Proof.
+    induction fuel as [|f IH]; intros cand stack Hc Hst Hf; [lia|]. cbn [desc_loop].
+    destruct cand as [x|].
+    - cbn in Hc. rewrite (Hnext x Hc). cbn [rbind]. rewrite (out_some x Hc) in Hf |- *. cbn [length] in Hf. rewrite app_length in Hf.
+      destruct (is_tag x) eqn:Htag.
+      + rewrite (first_child_spec ftrue x Hc). cbn [rbind]. rewrite filter_ftrue.
+        change (hd_error (a_children t x)) with (a_first_child t x).
+        rewrite (IH (a_first_child t x) (a_next_sibling t x :: stack)).
+        * cbn [rbind flat_map app filter]. rewrite (descendants_out x Hc), <- !app_assoc. reflexivity.
+        * apply first_ok.
+        * constructor; [apply next_ok; exact Hc|exact Hst].
+        * cbn [mst]. rewrite <- (descendants_out x Hc). lia.
+      + rewrite (IH (a_next_sibling t x) stack); [|apply next_ok; exact Hc|exact Hst|lia].
+        cbn [rbind app filter]. unfold a_descendants. destruct (a_sub_of_id t Hnd x Hc) as [s [Hs [E Hsub]]]. rewrite Hsub.
+        pose proof (Hleaf x Hc Htag) as Hl. unfold a_children in Hl. rewrite Hsub in Hl. unfold kid_ids in Hl.
+        destruct (ikids s); [reflexivity|discriminate].
+    - destruct stack as [|s st]; [reflexivity|]. inversion Hst; subst. cbn [mst out sibs_from flat_map length] in Hf.
+      rewrite (IH s st); [reflexivity|assumption|assumption|lia].
+  Qed.
+
+  Theorem descendants_spec fuel D F n : In n (ids t) -> 2 * length (ids t) + 1 < fuel ->
+    w_iterate_descendants first_raw next_raw is_tag fc fuel D F n = Ok (filter (fand D F) (a_descendants t n)).
+  Proof.
+    intros Hn Hf. unfold w_iterate_descendants. destruct (is_tag n) eqn:Htag.
+    - rewrite (first_child_spec ftrue n Hn). cbn [rbind]. rewrite filter_ftrue.
+      change (hd_error (a_children t n)) with (a_first_child t n).
+      rewrite desc_loop_spec; [cbn [flat_map]; rewrite app_nil_r, <- (descendants_out n Hn); reflexivity|apply first_ok|constructor|].
+      cbn [mst]. rewrite <- (descendants_out n Hn). pose proof (descendants_length n Hn). lia.
+    - unfold a_descendants. destruct (a_sub_of_id t Hnd n Hn) as [s [Hs [E Hsub]]]. rewrite Hsub.
+      pose proof (Hleaf n Hn Htag) as Hl. unfold a_children in Hl. rewrite Hsub in Hl. unfold kid_ids in Hl.
+      destruct (ikids s); [reflexivity|discriminate].
+  Qed.
+  Theorem full_text_spec fuel D n : In n (ids t) -> 2 * length (ids t) + 1 < fuel ->
+    (forall i, In i (ids t) -> is_text i = a_is_text t i) -> (forall i, In i (ids t) -> content i = a_text t i) ->
+    is_tag n = true ->
+    w_full_text first_raw next_raw is_tag is_text content fc fuel D n = Ok (a_text_concat t (filter D (a_descendants t n))).
+  Proof.
+    intros Hn Hf Htx Hct Htag. unfold w_full_text. rewrite Htag, (descendants_spec fuel D ftrue n Hn Hf). cbn [rbind].
+    rewrite filter_fand_ftrue. f_equal. unfold a_text_concat. apply flat_map_ext_in'. intros i Hi.
+    apply filter_In in Hi. destruct Hi as [Hi _].
+    assert (Hin : In i (ids t)).
+    { unfold a_descendants in Hi. destruct (a_sub_of_id t Hnd n Hn) as [s [Hs [E Hsub]]]. rewrite Hsub in Hi.
+      apply in_flat_map in Hi. destruct Hi as [k [Hk Hi]]. apply (ids_sub_incl t k (kid_in_subtrees t s k Hs Hk)). exact Hi. }
+    rewrite (Htx i Hin), (Hct i Hin). reflexivity.
+  Qed.
 End WalkFacts.
